@@ -92,6 +92,8 @@ type Case struct {
 	// Note: free-form tag attached by an enumerating check (e.g. the commit stage a crash point falls in).
 	Note  string `json:"note,omitempty"`
 	Audit bool   `json:"audit,omitempty"`
+	// Monitor: "handles" records every registry handle transition written to disk (C37).
+	Monitor string `json:"monitor,omitempty"`
 	// FaultPhase restricts faults to the group phase with this index (-1/0 = all).
 	FaultPhase int `json:"faultphase,omitempty"`
 }
@@ -171,6 +173,7 @@ type Result struct {
 	InfraErr   string
 	FilesAtEnd []string
 	Audit      *Audit
+	Handles    *handleMonitor
 }
 
 // ---- execution -------------------------------------------------------------------------------
@@ -808,6 +811,9 @@ func Execute(c *Case) (res *Result) {
 	}
 	defer e.Close()
 	res = e.Res
+	if c.Monitor == "handles" {
+		res.Handles = newHandleMonitor(e)
+	}
 	groupIdx := 0
 	allFaults, allRates := e.S.Cfg.Faults, e.S.Cfg.Rates
 	for i, ph := range c.Phases {
@@ -825,6 +831,9 @@ func Execute(c *Case) (res *Result) {
 		case "restart":
 			e.W.Restart()
 		case "observe":
+			if res.Handles != nil {
+				res.Handles.snapshot(ph.Label)
+			}
 			res.Obs = append(res.Obs, e.Observe(i, ph.Label))
 		case "observe_cold":
 			e.W.Restart()
@@ -833,6 +842,9 @@ func Execute(c *Case) (res *Result) {
 		if e.Res.Hang {
 			break
 		}
+	}
+	if res.Handles != nil {
+		res.Handles.finish(res)
 	}
 	res.Hash = e.S.LogHash()
 	res.Steps = e.S.Steps()
